@@ -242,9 +242,24 @@ def run_worker(pid: str, tier: str, seed: int, shard: int, nshards: int, out: st
     except Inconclusive as e:
         res = ctx.dump()
         res["inconclusive"] = [*ctx.inconclusive, str(e)]
-    except Exception:  # noqa: BLE001  harness failure, never a verdict on the code
-        res = ctx.dump()
-        res["inconclusive"] = [*ctx.inconclusive, "harness error: " + traceback.format_exc(limit=8)]
+    except Exception as e:  # noqa: BLE001
+        # An exception nobody guarded.  Raised *inside the library* (innermost frame below REPO/src, or below a third-party package the library
+        # called) while a monitor asked it something it had to answer: the library refused an in-scope query -- a verdict, with the traceback as
+        # witness.  Raised in the harness' own code (innermost frame in vmon): a harness failure, never a verdict on the code.
+        frames = traceback.extract_tb(e.__traceback__)
+        lib = os.path.join(REPO, "src") + os.sep
+        here = os.path.dirname(os.path.abspath(__file__)) + os.sep
+        through_lib = [f for f in frames if f.filename.startswith(lib)]
+        inner_in_harness = frames[-1].filename.startswith(here) if frames else True
+        if through_lib and not inner_in_harness:
+            ctx.violate(f"query-refused-by-the-library:{type(e).__name__}:{through_lib[-1].name}",
+                        f"{type(e).__name__}: {e}\n" + traceback.format_exc(limit=10),
+                        {"kind": "uncaught-library-exception", "traceback": traceback.format_exc(limit=12)})
+            res = ctx.dump()
+            res["inconclusive"] = [*ctx.inconclusive, "worker stopped at the first unguarded library exception (reported as a violation); quotas not reached"]
+        else:
+            res = ctx.dump()
+            res["inconclusive"] = [*ctx.inconclusive, "harness error: " + traceback.format_exc(limit=8)]
     with open(out, "w") as f:
         json.dump(res, f, default=repr)
     return 0
@@ -504,6 +519,11 @@ def run_replay(pid: str, path: str) -> int:
     if not hasattr(mod, "replay"):
         print("no replay function for", pid)
         return 2
+    if v["witness"].get("kind") == "uncaught-library-exception":
+        print(f"replay of {path}: the recorded witness is a traceback of an exception the library raised inside a monitor's query:")
+        print(v["witness"].get("traceback", ""))
+        print("re-run the check itself (same VERIF_SEED) to reproduce it")
+        return 1
     mod.replay(ctx, v["witness"])
     known = load_known()
     bad = [x for x in ctx.violations if (pid, x["mechanism"]) not in known]
